@@ -648,7 +648,14 @@ func (g *gen) stmt() {
 				return
 			}
 			g.f("assign")
-			g.line("%s = %s", v.name, g.expr(t, 2))
+			if t == tStr && len(g.loops) > 0 {
+				// no exponential string growth inside loops
+				g.line("if len(%s) < 64 {", v.name)
+				g.line("\t%s = %s", v.name, g.expr(t, 2))
+				g.line("}")
+			} else {
+				g.line("%s = %s", v.name, g.expr(t, 2))
+			}
 		} else {
 			g.line("fmt.Println(%s)", g.expr(tInt, 2))
 		}
@@ -1307,9 +1314,10 @@ func (g *gen) switchStmt() {
 	defAt := -1
 	if g.r.Intn(2) == 0 && !g.off("switch-default") {
 		defAt = g.r.Intn(ncase + 1)
-		if g.off("switch-default-not-last") {
-			defAt = ncase
-		}
+		// a default clause that is not last is fine in a tagless switch (conditions stay in source
+		// order since the repair of the switchIfStmt wiring, F44 fixed); in a switch with a tag the
+		// default clause is still moved to the end, which is only visible with fallthrough (see below)
+		_ = tagless
 	}
 	used := map[int]bool{}
 	for c := 0; c <= ncase; c++ {
@@ -1354,9 +1362,10 @@ func (g *gen) switchStmt() {
 		}
 		g.line("fmt.Println(%q)", g.fresh("case"))
 		last := c == ncase || (c == ncase-1 && defAt != ncase)
-		if !last && g.r.Intn(5) == 0 && !g.off("fallthrough") && (c != defAt || !g.off("fallthrough-from-default")) {
-			if c == defAt {
-				g.f("fallthrough-from-default")
+		nonLastDefaultTag := !tagless && defAt >= 0 && defAt != ncase
+		if !last && g.r.Intn(5) == 0 && !g.off("fallthrough") && (!nonLastDefaultTag || !g.off("tag-switch-nonlast-default-fallthrough")) {
+			if nonLastDefaultTag {
+				g.f("tag-switch-nonlast-default-fallthrough")
 			}
 			g.f("fallthrough")
 			g.line("fallthrough")
